@@ -3,8 +3,8 @@
 From Coq Require Import ZArith Reals Lra List Bool.
 From Coquelicot Require Import Coquelicot.
 From PW Require Import Num NumR Vec Mat Result.
-From PW.model Require Import M_rodrigues.
-From PW.proofs Require Import P_rodrigues P_rodrigues_inv P_rodrigues_jac P_rodrigues_rt P_rodrigues_half P_rodrigues_deriv P_rodrigues_tiny.
+From PW.model Require Import M_rodrigues M_rodrigues_spec.
+From PW.proofs Require Import P_rodrigues P_rodrigues_inv P_rodrigues_jac P_rodrigues_rt P_rodrigues_half P_rodrigues_deriv P_rodrigues_tiny P_rodrigues_zones.
 Import ListNotations.
 Local Open Scope R_scope.
 
@@ -36,6 +36,7 @@ Proof. exact fwd_zero_is_identity. Qed.
 
 (* the `< eps` shortcut (eps = 2^-52): for |r| < eps the code returns exactly I, and that is within |r| |v| (< 2.3e-16 |v|)
    of the exact rotation by |r| about r/|r| applied to any vector v *)
+(* definitional: pins the shape of the model; the content is carried by the traced ties / correspondence *)
 Theorem C10_fwd_tiny_is_identity : forall r : vec3 R,
   vnorm ROps r < rod_eps ROps -> rodrigues_fwd ROps r = I3 ROps.
 Proof. exact fwd_tiny_is_identity. Qed.
@@ -65,12 +66,46 @@ Theorem C10_half_turn_roundtrip : forall proj (k : vec3 R), proj_ok proj -> vnor
   let Rm := m3add ROps (m3scale ROps 2 (m3outer ROps k)) (m3scale ROps (-1) (I3 ROps)) in
   exists v, rodrigues_inv ROps proj Rm = Some v /\ vnorm ROps v = PI /\ rodrigues_fwd ROps v = Rm.
 Proof. exact half_turn_roundtrip_vec. Qed.
-(* the returned vector is never longer than pi (all three branches, any matrix coming out of the projection) *)
+(* every proper rotation gets a vector (the model's NaN outcome `None` cannot occur on SO(3)), never longer than pi *)
+Theorem C10_inv_defined_and_short : forall proj (m : mat3 R), proj_ok proj -> proper m ->
+  exists v, rodrigues_inv ROps proj m = Some v /\ vnorm ROps v <= PI.
+Proof. exact inv_defined_and_short. Qed.
+(* (the length bound alone holds for any matrix coming out of the projection, proper or not) *)
 Theorem C10_inv_norm_le_pi : forall proj (m : mat3 R) v,
   rodrigues_inv ROps proj m = Some v -> vnorm ROps v <= PI.
 Proof. intros proj m v. exact (inv_norm_le_pi (proj m) v). Qed.
-(* numeric clauses not proved (sampled by the oracle): |sin angle| < 1e-5 -- the zero branch returns 0 for angles
-   up to 1e-5 (error <= 2.5e-5 claimed by the property), the half-turn branch recovers the axis from the diagonal. *)
+
+(* ---- the snapping zones s = |antisymmetric part|/2 < 1e-5 (within ~1e-5 rad of 0 or of pi) ------------------
+   zero zone (c > 0): the code returns the zero vector; it maps back to I, and EVERY entry of I differs from the
+   entry of R by at most 2 s < 2e-5 -- this is the property's 2.5e-5 clause for the zone next to 0, proved. *)
+Theorem C10_inv_zero_zone_maps_back : forall proj (m : mat3 R), proj_ok proj -> proper m ->
+  rod_inv_s ROps m < rod_small ROps -> 0 < rod_inv_c ROps m ->
+  rodrigues_inv ROps proj m = Some (vzero ROps) /\
+  forall a b, (a < 3)%nat -> (b < 3)%nat ->
+    Rabs (m3get (rodrigues_fwd ROps (vzero ROps)) a b - m3get m a b) <= 2 * rod_inv_s ROps m.
+Proof. exact inv_zero_zone. Qed.
+(* half-turn zone (c <= 0), not an exact half-turn.  Proved: a vector is returned, its length is exactly the rotation
+   angle acos((tr R - 1)/2) of R (in [pi/2, pi]), so mapping it back gives a rotation by the right angle.
+   Missing: that the axis recovered from the diagonal is within the 2.5e-5 the property states (exact only at angle pi,
+   C10_half_turn_roundtrip); sampled by the oracle at 1e-9 .. 1e-5 rad from pi. *)
+Theorem C10_inv_halfturn_zone_partial : forall proj (m : mat3 R), proj_ok proj -> proper m ->
+  rod_inv_s ROps m < rod_small ROps -> rod_inv_c ROps m <= 0 ->
+  exists v, rodrigues_inv ROps proj m = Some v /\
+    vnorm ROps v = acos ((a00 m + a11 m + a22 m - 1) * / 2) /\ PI / 2 <= vnorm ROps v <= PI /\
+    cos (vnorm ROps v) = (a00 m + a11 m + a22 m - 1) * / 2.
+Proof. exact inv_halfturn_zone. Qed.
+(* vector -> matrix -> vector inside the zones.  Next to 0: the zero vector comes back, so the round-trip error is |r|
+   itself.  Missing: the numeric step from sin|r| < 1e-5, cos|r| > 0 to |r| <= 2.5e-5 (it is < 1.0000000001e-5). *)
+Theorem C10_inv_of_fwd_zero_zone_partial : forall proj (r : vec3 R), proj_ok proj ->
+  rod_eps ROps <= vnorm ROps r <= PI -> sin (vnorm ROps r) < rod_small ROps -> 0 < cos (vnorm ROps r) ->
+  rodrigues_inv ROps proj (rodrigues_fwd ROps r) = Some (vzero ROps).
+Proof. exact inv_of_fwd_zero_zone. Qed.
+(* Next to pi: a vector of exactly the length |r| comes back.  Missing: its direction is within 2.5e-5 of r/|r| or of
+   -r/|r| (the sign may flip only at a half-turn, where k and -k are the same rotation). *)
+Theorem C10_inv_of_fwd_halfturn_zone_partial : forall proj (r : vec3 R), proj_ok proj ->
+  rod_eps ROps <= vnorm ROps r <= PI -> sin (vnorm ROps r) < rod_small ROps -> cos (vnorm ROps r) <= 0 ->
+  exists v, rodrigues_inv ROps proj (rodrigues_fwd ROps r) = Some v /\ vnorm ROps v = vnorm ROps r.
+Proof. exact inv_of_fwd_halfturn_zone. Qed.
 
 (* ---- Jacobians -------------------------------------------------------------------------------------- *)
 (* "the Jacobian it can return equals the derivative of that map": for every rotation vector with |r| > eps, every
@@ -117,6 +152,11 @@ Theorem C10_jacobians_compose_at_identity : forall proj, proj_ok proj ->
   jac_compose (rodrigues_fwd_jac ROps (V3 0 0 0)) (rodrigues_inv_jac ROps proj (I3 ROps)) =
   [[1; 0; 0]; [0; 1; 0]; [0; 0; 1]].
 Proof. exact jacobians_compose_identity. Qed.
+(* ... and in the whole zero zone (s < 1e-5, c > 0: the literal +-0.5 table, at the returned vector 0) *)
+Theorem C10_jacobians_compose_zero_zone : forall proj (m : mat3 R), proj_ok proj -> proper m ->
+  rod_inv_s ROps m < rod_small ROps -> 0 < rod_inv_c ROps m ->
+  jac_compose (rodrigues_fwd_jac ROps (vzero ROps)) (rodrigues_inv_jac ROps proj m) = [[1; 0; 0]; [0; 1; 0]; [0; 0; 1]].
+Proof. exact jacobians_compose_zero_zone. Qed.
 (* In the half-turn branch the code returns the zero Jacobian, so the clause is false there for every vector v
    (known finding halfturn_jacobian_zero): witness diag(1, -1, -1). *)
 Theorem C10_jacobians_compose_halfturn_refuted :
@@ -127,6 +167,7 @@ Theorem C10_jacobians_compose_halfturn_refuted :
 Proof. exact jacobians_compose_halfturn_refuted. Qed.
 
 (* ---- dispatch --------------------------------------------------------------------------------------- *)
+(* definitional: pins the shape of the model; the content is carried by the traced ties / correspondence *)
 Theorem C10_cv2_dispatch : forall proj (a : ndarr) jac,
   (nd_size a = 3%nat -> cv2_rodrigues ROps proj a jac = r2m_entry ROps a jac) /\
   (nd_shape a = [3%nat; 3%nat] -> cv2_rodrigues ROps proj a jac = m2r_entry ROps proj a jac).
@@ -176,8 +217,26 @@ Proof.
     rewrite sqrt_square by lra. lra.
 Qed.
 
+(* non-vacuity of the zone theorems: rotations about x with rational cosine/sine 2e-6 rad from 0 and from pi
+   (quaternion (10^6, 1, 0, 0) and (1, 10^6, 0, 0)) *)
+Example C10_nonvacuous_zero_zone :
+  let m := rot_x (999999999999 / 1000000000001) (2000000 / 1000000000001) in
+  proper m /\ rod_inv_s ROps m < rod_small ROps /\ 0 < rod_inv_c ROps m.
+Proof.
+  cbv zeta. destruct (rot_x_facts (999999999999 / 1000000000001) (2000000 / 1000000000001)) as (Hp & Es & Ec); [field | lra |].
+  rewrite Es, Ec. split; [exact Hp|]. unfold rod_small, nfrac; rops. split; lra.
+Qed.
+Example C10_nonvacuous_halfturn_zone :
+  let m := rot_x (- (999999999999 / 1000000000001)) (2000000 / 1000000000001) in
+  proper m /\ rod_inv_s ROps m < rod_small ROps /\ rod_inv_c ROps m <= 0.
+Proof.
+  cbv zeta. destruct (rot_x_facts (- (999999999999 / 1000000000001)) (2000000 / 1000000000001)) as (Hp & Es & Ec); [field | lra |].
+  rewrite Es, Ec. split; [exact Hp|]. unfold rod_small, nfrac; rops. split; lra.
+Qed.
+
 Definition C10_all := (C10_fwd_proper, C10_fwd_fixes_axis, C10_fwd_fixes_vector, C10_fwd_turns_perp,
-  C10_fwd_zero_is_identity, C10_fwd_tiny_is_identity, C10_fwd_tiny_error_bound, C10_inv_of_fwd, C10_fwd_of_inv_generic, C10_inv_norm_le_pi, C10_half_turn_roundtrip,
+  C10_fwd_zero_is_identity, C10_fwd_tiny_is_identity, C10_fwd_tiny_error_bound, C10_inv_of_fwd, C10_fwd_of_inv_generic, C10_inv_norm_le_pi, C10_half_turn_roundtrip, C10_inv_defined_and_short, C10_inv_zero_zone_maps_back,
+  C10_inv_halfturn_zone_partial, C10_inv_of_fwd_zero_zone_partial, C10_inv_of_fwd_halfturn_zone_partial, C10_jacobians_compose_zero_zone,
   C10_fwd_jacobian_is_derivative, C10_rodrigues_formula_derivative, C10_fwd_jacobian_tiny_partial,
   C10_jacobians_compose_to_identity, C10_jacobians_compose_of_vector, C10_jacobians_compose_at_identity,
   C10_jacobians_compose_halfturn_refuted, C10_cv2_dispatch, C10_cv2_rejects_other_shapes,
